@@ -54,7 +54,7 @@ def build_case(work, n, case):
     mal = case["malformed"]
     if mal == "invalidJson":
         with open(path, "w") as f:
-            f.write('{"mcpServers": {"srv1": {"command": ')
+            f.write(['{"mcpServers": {"srv1": {"command": ', "", "  \n\t ", "not json at all", '{"mcpServers": {},}', "\ufeff"][case.get("variant", n) % 6])
     elif mal != "missingFile":
         with open(path, "w") as f:
             json.dump({"mcpServers": servers, "other": 1}, f, ensure_ascii=False)
